@@ -1,8 +1,35 @@
 PROP = dict(
     harness="c17", level="exploration", exhaustive_capable=True,
+    # The deterministic enumeration (vh_enum: ~4.5k sweep items quick, ~30k thorough, item i -> worker i mod workers) runs before
+    # the generated cases and does not count against `cases`; `cases` is only the random tail (explicit values / random blocks).
     quick=dict(cases=8000, max_size=100, workers=8),
-    thorough=dict(cases=64000, max_size=100, workers=16),
-    rule=("TBD"),
-    assumptions=[],
+    thorough=dict(cases=160000, max_size=100, workers=16),
+    rule=("(a) every OffsetFormat the back ends construct (x86 rel8/rel32/abs32 with leading+trailing bytes, data 1/2/4/8 signed and unsigned, "
+          "AArch64 imm26/imm19/imm14 x4, ADR, ADRP) plus the Thumb/A32/T16 formats of fixup.h: for every offset the target word is pre-filled with "
+          "hash-derived bits (field zero), write_offset + encode_offset32/64 are called and an independent architecture decoder must recover "
+          "exactly the offset with all other bits/bytes unchanged, or the call must fail exactly when the format cannot hold the offset; fields up to "
+          "26 bits (quick) / 32 bits (thorough) are swept exhaustively over range + 1024 units outside each end and all discarded-low-bit patterns, "
+          "wider ones on boundary windows + random blocks. (b) all (N,immr,imms) of DecodeBitMasks for 64/32 bit and every value one bit away, through "
+          "encode_logical_imm and through and/orr/eor/ands/tst/bic/orn/eon/bics; all 256 fp8 immediates per precision, all 65536 fp16 patterns, "
+          "neighbours, through fmov scalar/vector; mov Xd/Wd/sp,#imm evaluated by an interpreter of MOVZ/MOVN/MOVK/ORR; add/sub/cmp/cmn immediates "
+          "around 2^12 and 2^24 with explicit shifts; 15 bitfield/shift/extract aliases x (lsb,width) 0..70 judged by executing the encoding; b/bl/b.cc/"
+          "cbz/tbz/adr/adrp/ldr-literal to labels (bound earlier, later, other section) decoded end to end. A case is non-trivial when at least one value "
+          "was accepted and decoded (sweeps) or judged (immediates); distinct = distinct case text (sweep item or explicit value list)"),
+    assumptions=["ASan+UBSan build with ASMJIT_ASSERT active",
+                 "the offset field is zero before patching (write_offset ORs the field in; every emitter writes zeros first)",
+                 "Thumb/A32 formats are not constructed by any back end of this tree: their parameters (bit count, multiplier) are taken from the fixup.h documentation",
+                 "INT64_MIN is not passed to sign+magnitude formats (`-offset64` overflows; cannot arise from 64-bit section layouts)",
+                 "mov-wide sequences are judged for the value left in the register, not for minimal length"],
 )
-META = dict(engine="bounded-exhaustive + rapidcheck", technique="TBD", level_text="TBD", level_note="TBD", design_ref="DESIGN.md section 4, C17")
+META = dict(
+    engine="bounded-exhaustive enumeration + rapidcheck",
+    technique=("exhaustive sweep of displacement fields against decoders written from the Arm ARM / x86 layouts; exhaustive DecodeBitMasks / VFPExpandImm "
+               "tables as membership oracles; interpreter of the emitted AArch64 words for mov/bitfield/extract; random tail for wide fields and 64-bit constants"),
+    level_text=("Exploration with exhaustive parts: every offset format with a field of at most 26 bits (thorough: 32 bits for six of eight 32-bit formats) is "
+                "checked for every offset in range and 1024 units beyond each end; all 5334+1302 logical immediates, all 3x256 fp8 immediates and all fp16 "
+                "patterns are enumerated. 64-bit fields, the remaining 32-bit variants, A32 modified immediates, move-wide constants, add/sub and pc-relative "
+                "distances are covered by boundary windows, structured enumerations and random values: absence of failures there is not a proof."),
+    level_note=("Trusts the harness decoders (~600 lines written from the architecture manuals; cross-checked on out-of-range bitfield aliases with LLVM MC) and "
+                "ASan/UBSan. `exhaustive: true` refers to the enumerated sweep items listed in the notes of the evidence file."),
+    design_ref="DESIGN.md section 4, C17",
+)
